@@ -36,7 +36,12 @@ META["text"] = (
     "mj_compile as a whole): random articulated models are written out explicitly and re-spelled five ways -- orientations as axisangle/euler/xyaxes/zaxis with degree and eulerseq options; bodies and "
     "geoms wrapped in 1-3 nested frames; joint and geom attributes through three nested default classes and childclass; a subtree built in a child spec and attached with mjs_attach; fusestatic on/off -- "
     "both are compiled, run through mj_forward and 100 steps, and the poses of all kept bodies must agree to 1e-9 (fusestatic: 1e-6, because the fused inertia goes through mjuu_eig3 whose designed accuracy "
-    "is ~1e-6 rad, see C35; measured ~1e-9). RUNTIME EDITS (round 4, oracle only -- mj_setConst is engine code outside the Coq models): for every generated model (a ball joint is put on the last moving body of most of them, so nq > nv with the "
+    "is ~1e-6 rad, see C35; measured ~1e-9). NESTED ATTACHMENT (round 5): the attach spelling now splits every model into 1-3 nested child specs along a root-to-leaf chain (A attached into B, then B into C), "
+    "each level with its OWN compiler conventions (angle unit, euler sequence); the elements of a level (body / geom orientations as axisangle or euler, hinge and ball ranges, ref, springref, the attachment frames) "
+    "are written natively in that level's convention, so the compiled poses, jnt_range, qpos0, qpos_spring and the trajectories equal the written-out model only if every attached element is compiled with the "
+    "settings of the spec it was written in. C36_findspec proves, for a discrete model of mjCModel::FindSpec over ANY attachment tree, that the spec found for a compiler is its owner (never an intermediate spec) "
+    "and that every compiler in the tree is found; the tie of that model is indirect (through the compiled angles). "
+    "RUNTIME EDITS (round 4, oracle only -- mj_setConst is engine code outside the Coq models): for every generated model (a ball joint is put on the last moving body of most of them, so nq > nv with the "
     "quaternion coordinates trailing) the base spec is compiled and simulated 40-150 steps, then real-valued parameters are edited in mjModel (mass and inertia of 1-2 bodies scaled, a body position, a joint's armature "
     "or damping, a spring reference) and mj_setConst is called on the used mjData; the same edits are made in the spec, which is recompiled; every derived constant (body_subtreemass, body_invweight0, dof_M0, "
     "dof_invweight0, qpos0, qpos_spring, the statistics, and the edited parameters) must agree to 1e-9, must be the same after mj_resetData + mj_setConst (independence of the scratch state), and both models continued "
@@ -301,6 +306,34 @@ BUILTIN = {"gtype": 2.0, "gs0": 0.0, "gs1": 0.0, "gs2": 0.0, "gdens": 1000.0, "j
 
 
 def rand_orient(rng, degree, seq, allow_z=True):
+    o = rand_orient0(rng, degree, seq, allow_z)
+    o["deg"], o["seq"] = bool(degree), seq          # the convention (angle unit, euler sequence) the numbers are written in
+    return o
+
+
+def ori_in(o, degree, seq):
+    """the orientation written for a spec whose compiler has the given angle unit and euler sequence: native where the spelling can be
+    expressed in that convention (axisangle: angle converted to the unit; euler: only if the sequence is the same), else the quaternion"""
+    k = o["kind"]
+    conv = (math.pi / 180 if o["deg"] else 1.0) * (180 / math.pi if degree else 1.0)
+    if k in ("q", "xy", "z"):
+        return ori_native(o)
+    if k == "aa":
+        return "aa " + " ".join(hx(x) for x in o["args"][:3] + [o["args"][3] * conv])
+    if k == "eu" and o["seq"] == seq:
+        return "eu " + " ".join(hx(x * conv) for x in o["args"])
+    return ori_q(o)
+
+
+def quat_as_axisangle(q, degree):
+    n = math.sqrt(sum(x * x for x in q[1:]))
+    if n < 1e-9:
+        return "q " + " ".join(hx(x) for x in q)
+    ang = 2 * math.atan2(n, q[0])
+    return "aa " + " ".join(hx(x / n) for x in q[1:]) + " " + hx(ang * 180 / math.pi if degree else ang)
+
+
+def rand_orient0(rng, degree, seq, allow_z=True):
     """an orientation in a random native spelling and its canonical quaternion (computed independently in python)"""
     k = rng.choice(["q", "aa", "eu", "xy", "z"] if allow_z else ["q", "aa", "eu", "xy"])
     if k == "q":
@@ -364,6 +397,15 @@ def angles_written(a, jt, degree):
     return w
 
 
+def _path(parents, i):
+    """indices from the root down to body i"""
+    p = []
+    while i != -1:
+        p.append(i)
+        i = parents[i]
+    return p[::-1]
+
+
 def gen_model(rng):
     degree = rng.random() < 0.5
     seq = "".join(rng.choice("xyzXYZ") for _ in range(3))
@@ -376,9 +418,20 @@ def gen_model(rng):
             if rng.random() < 0.45:
                 own[a] = float(rng.choice([3, 4, 5, 6])) if a == "gtype" else (rng.uniform(200, 2000) if a == "gdens" else rng.uniform(0.05, 0.3))
         classes.append(own)
+    # attachment partition (used by the "attach" spelling): 1-3 nested child specs along one root-to-leaf chain, every level with its
+    # OWN compiler conventions (angle unit, euler sequence); the elements of a level are generated in that level's convention
+    parents = [-1] + [rng.randrange(i) for i in range(1, nb)]
+    deepest = max(range(nb), key=lambda i: (len(_path(parents, i)), rng.random()))
+    path = _path(parents, deepest if rng.random() < 0.7 else rng.randrange(nb))
+    k_att = min(len(path), rng.choice([1, 2, 2, 3]))
+    roots = sorted(rng.sample(path, k_att), key=path.index)
+    settings = [(degree, seq)] + [(rng.random() < 0.5, "".join(rng.choice("xyzXYZ") for _ in range(3))) for _ in roots]
+    def level_of(i):
+        return sum(1 for r in roots if r in _path(parents, i))
     bodies = []
     for i in range(nb):
-        parent = -1 if i == 0 else rng.randrange(i)
+        parent = parents[i]
+        ldeg, lseq = settings[level_of(i)]
         static = i > 0 and rng.random() < 0.25
         jt = None if static else rng.choice([3, 3, 2, 1] + ([0] if parent == -1 else []))
         cls = rng.choice([None, 0, 1, 2])           # class used by the "defaults" spelling for the elements of this body
@@ -401,14 +454,14 @@ def gen_model(rng):
             g["s0"], g["s1"], g["s2"] = max(g["s0"], 0.07), max(g["s1"], 0.08), max(g["s2"], 0.09)
         if g["dens"] <= 0:
             g["dens"] = 700.0
-        b = {"name": "b%d" % i, "parent": parent, "pos": [rng.uniform(-0.4, 0.4) for _ in range(3)], "ori": rand_orient(rng, degree, seq),
-             "joint": None, "cls": cls,
-             "geom": {"name": "g%d" % i, "pos": [rng.uniform(-0.2, 0.2) for _ in range(3)], "ori": rand_orient(rng, degree, seq), "attr": g}}
+        b = {"name": "b%d" % i, "parent": parent, "pos": [rng.uniform(-0.4, 0.4) for _ in range(3)], "ori": rand_orient(rng, ldeg, lseq),
+             "joint": None, "cls": cls, "level": level_of(i),
+             "geom": {"name": "g%d" % i, "pos": [rng.uniform(-0.2, 0.2) for _ in range(3)], "ori": rand_orient(rng, ldeg, lseq), "attr": g}}
         if jt is not None:
             b["joint"] = {"name": "j%d" % i, "type": jt, "axis": unit([rng.gauss(0, 1) for _ in range(3)]), "attr": target(ATTR_J, cls),
                           "ang": rand_joint_angles(rng, jt)}
         bodies.append(b)
-    return {"degree": degree, "seq": seq, "classes": classes, "bodies": bodies}
+    return {"degree": degree, "seq": seq, "classes": classes, "bodies": bodies, "attach": {"roots": roots, "settings": [[bool(d), q] for d, q in settings]}}
 
 
 def ori_q(o):
@@ -429,25 +482,25 @@ def render(model, variant, rng, nsteps=100):
     cmds = []
     M = model
     native = variant == "orient"
+    attach = variant == "attach"
     fuse = 1 if variant == "fuse" else 0
-    cmds.append("opt %d %s %d" % ((1 if M["degree"] else 0) if native else 0, M["seq"] if native else "xyz", fuse))
-    O = ori_native if native else ori_q
+    att = M.get("attach") or {"roots": [], "settings": [[M["degree"], M["seq"]]]}
+    roots, settings = att["roots"], att["settings"]
+    if attach:
+        cmds.append("opt %d %s 0" % (1 if settings[0][0] else 0, settings[0][1]))
+    else:
+        cmds.append("opt %d %s %d" % ((1 if M["degree"] else 0) if native else 0, M["seq"] if native else "xyz", fuse))
+    def O(o, level=0):
+        if attach:
+            return ori_in(o, settings[level][0], settings[level][1])
+        return ori_in(o, M["degree"], M["seq"]) if native else ori_q(o)
     names = {}
     jwritten = {}
     if variant == "defaults":
         for k, own in enumerate(M["classes"]):
             cmds.append("def c%d %s %s" % (k, "-" if k == 0 else "c%d" % (k - 1), attrs_txt(own, ["gtype", "gs0", "gs1", "gs2", "gdens", "jdamp", "jarm", "jstiff"])))
-    sub_root = None
-    sub_degree = rng.random() < 0.5
-    if variant == "attach":
-        cands = [i for i, b in enumerate(M["bodies"]) if b["joint"] is not None]
-        sub_root = rng.choice(cands)
-    def in_sub(i):
-        while i != -1:
-            if i == sub_root:
-                return True
-            i = M["bodies"][i]["parent"]
-        return False
+    def prefix(level):
+        return "".join("p%d_" % l for l in range(1, level + 1))
     nframe = [0]
     def wrap(cmds_, body_name, pose, depth):
         """create `depth` nested frames in body_name and return (innermost frame name, pose of the element inside them)"""
@@ -462,27 +515,30 @@ def render(model, variant, rng, nsteps=100):
             parent = nm
         inner = pose_mul(pose_inv(total), pose)
         return parent, inner
-    main_cmds, sub_cmds = cmds, []
+    main_cmds = cmds
+    level_cmds = [cmds] + [["opt %d %s 0" % (1 if d else 0, q)] for d, q in settings[1:]]
     for i, b in enumerate(M["bodies"]):
-        sub = variant == "attach" and in_sub(i)
-        C = sub_cmds if sub else main_cmds
+        lev = b.get("level", 0) if attach else 0
+        sub = lev > 0
+        C = level_cmds[lev]
         pname = "world" if b["parent"] == -1 else M["bodies"][b["parent"]]["name"]
         bname = b["name"]
-        names[("p_" + bname) if sub else bname] = bname
+        names[prefix(lev) + bname] = bname
         cls_b = "-"
         use_child = variant == "defaults" and b["cls"] is not None and rng.random() < 0.5     # childclass on the body instead of class on the elements
         if use_child:
             cls_b = "c%d" % b["cls"]
-        frame, pos, oritxt = "-", b["pos"], O(b["ori"])
+        frame, pos, oritxt = "-", b["pos"], O(b["ori"], lev)
         if variant == "frames" and rng.random() < 0.7:
             frame, inner = wrap(C, pname, (b["pos"], b["ori"]["quat"]), rng.choice([1, 2, 3]))
             pos, oritxt = inner[0], "q " + " ".join(hx(x) for x in inner[1])
-        if sub and i == sub_root:
-            # child spec: the body hangs from the child's world at pose P_c; the parent frame F satisfies F o P_c = P
+        if sub and i == roots[lev - 1]:
+            # child spec of this level: the body hangs from that spec's world at pose P_c; the frame F in the enclosing spec (level - 1),
+            # written as axisangle in THAT spec's angle unit, satisfies F o P_c = P
             Pc = ([rng.uniform(-0.3, 0.3) for _ in range(3)], rand_unit_quat(rng))
             Fp = pose_mul((b["pos"], b["ori"]["quat"]), pose_inv(Pc))
-            main_cmds.append("frame fa %s - %s q %s" % (pname, " ".join(hx(x) for x in Fp[0]), " ".join(hx(x) for x in Fp[1])))
-            C.append("body %s world - - %s q %s" % (bname, " ".join(hx(x) for x in Pc[0]), " ".join(hx(x) for x in Pc[1])))
+            level_cmds[lev - 1].append("frame fa%d %s - %s %s" % (lev, pname, " ".join(hx(x) for x in Fp[0]), quat_as_axisangle(Fp[1], settings[lev - 1][0])))
+            C.append("body %s world - - %s %s" % (bname, " ".join(hx(x) for x in Pc[0]), quat_as_axisangle(Pc[1], settings[lev][0])))
         else:
             C.append("body %s %s %s %s %s %s" % (bname, pname, frame, cls_b, " ".join(hx(x) for x in pos), oritxt))
         # resolved class values for this body's elements (python semantics: the innermost class that sets the attribute wins)
@@ -498,7 +554,7 @@ def render(model, variant, rng, nsteps=100):
         if b["joint"]:
             j = b["joint"]
             # attached elements keep the compiler options of the spec they were written in: the child spec has its own angle unit
-            deg_here = sub_degree if sub else bool(native and M["degree"])
+            deg_here = bool(settings[lev][0]) if attach else bool(native and M["degree"])
             w = angles_written(j["ang"], j["type"], deg_here)
             ja = explicit(j["attr"], ATTR_J)
             jcls = ecls
@@ -513,14 +569,17 @@ def render(model, variant, rng, nsteps=100):
             jwritten[j["name"]] = (deg_here, w)
             C.append("joint %s %s %s %d %s %s" % (j["name"], bname, jcls, j["type"], " ".join(hx(x) for x in j["axis"]), attrs_txt(ja, ATTR_J + ANG_ORDER)))
         ge = b["geom"]
-        gframe, gpos, gori = "-", ge["pos"], O(ge["ori"])
+        gframe, gpos, gori = "-", ge["pos"], O(ge["ori"], lev)
         if variant == "frames" and rng.random() < 0.7:
             gframe, inner = wrap(C, bname, (ge["pos"], ge["ori"]["quat"]), rng.choice([1, 2]))
             gpos, gori = inner[0], "q " + " ".join(hx(x) for x in inner[1])
         C.append("geom %s %s %s %s %s %s %s" % (ge["name"], bname, gframe, ecls, " ".join(hx(x) for x in gpos), gori, attrs_txt(explicit(ge["attr"], ATTR_G), ATTR_G)))
-    if variant == "attach":
-        text = ("spec 0 " + " ".join(main_cmds) + " spec 1 opt %d xyz 0 " % (1 if sub_degree else 0) + " ".join(sub_cmds)
-                + " spec 0 attach fa %s p_" % M["bodies"][sub_root]["name"])
+    if attach:
+        # innermost first: level k into level k-1, ..., level 1 into the main spec (A into B, then B into C)
+        text = " ".join("spec %d %s" % (l, " ".join(c)) for l, c in enumerate(level_cmds))
+        for l in range(len(roots), 0, -1):
+            text += " attachx %d fa%d %d %s p%d_" % (l - 1, l, l, M["bodies"][roots[l - 1]]["name"], l)
+        text += " spec 0"
     else:
         text = " ".join(main_cmds)
     return "M " + text + " qvel 0.4 sim %d" % nsteps, names, jwritten
@@ -573,7 +632,7 @@ def check_joint_angles(ctx, M, v, o, jw, case, jlits):
         j = b["joint"]
         if not j or j["type"] == 0:
             continue
-        nm = j["name"] if j["name"] in o["joints"] else "p_" + j["name"]
+        nm = j["name"] if j["name"] in o["joints"] else next((k for k in o["joints"] if k.endswith("_" + j["name"])), j["name"])
         obs = o["joints"].get(nm)
         a = j["ang"]
         if obs is None:
@@ -824,6 +883,14 @@ def run_models(ctx, exe):
     ctx.cov["support"]["trajectory_body_comparisons"] = ncmp
     ctx.cov["support"]["bodies_that_moved_more_than_1e-4"] = moved
     ctx.cov["support"]["joint_angle_attributes_checked"] = nj_checked
+    depth = {}
+    for Mx in models:
+        a = Mx.get("attach") or {"roots": [], "settings": []}
+        dk = len(a["roots"])
+        depth[str(dk)] = depth.get(str(dk), 0) + 1
+    ctx.cov["support"]["attach_nesting_depth_histogram"] = depth
+    ctx.cov["support"]["attach_models_with_level_conventions_differing"] = sum(
+        1 for Mx in models if len({tuple(x) for x in (Mx.get("attach") or {"settings": []})["settings"]}) > 1)
     sc = run_setconst(ctx, exe, models)
     ctx.cov["support"]["setconst"] = sc
     return dlits, jlits, {"models": len(models), "compiles": len(reqs) + 2 * sc.get("requests", 0)}
